@@ -233,6 +233,8 @@ def oracle(ctx, interp, Ad, A, theta, norm, spl, sym, rowsum0, base):
             continue
         ctx.count('oracle:air')
         Cp = np.where(spl == 1)[0]
+        from pyamg.strength import classical_strength_of_connection
+        Cs = sp.csr_array(classical_strength_of_connection(A, theta=0.1, norm='abs'))
         Rd = R.toarray()
         RA = Rd @ Ad
         scale = max(1.0, np.abs(Rd).max() * np.abs(Ad).max())
@@ -240,7 +242,18 @@ def oracle(ctx, interp, Ad, A, theta, norm, spl, sym, rowsum0, base):
             if abs(Rd[r, cpt] - 1) > 1e-12 or any(abs(Rd[r, c]) > 0 for c in Cp if c != cpt):
                 ctx.fail('local_air/identity-block', 'row %d' % r, case)
                 break
-            Fpat = [j for j in range(n) if spl[j] == 0 and Rd[r, j] != 0]
+            # the sparsity pattern of row r as the routine defines it (strong F neighbours, distance `degree`);
+            # local_air eliminates stored zeros, so the pattern is recomputed here.  When A restricted to the
+            # pattern is singular the defining equations have no solution in general: nothing is required then.
+            n1 = [j for j in Cs.indices[Cs.indptr[cpt]:Cs.indptr[cpt + 1]] if spl[j] == 0]
+            Fpat = set(n1)
+            if degree == 2:
+                for j in n1:
+                    Fpat |= {k for k in Cs.indices[Cs.indptr[j]:Cs.indptr[j + 1]] if spl[k] == 0}
+            Fpat = sorted(int(j) for j in Fpat)
+            if any(Rd[r, j] != 0 for j in range(n) if spl[j] == 0 and j not in Fpat):
+                ctx.fail('local_air/outside-pattern', 'row %d has weights outside the strong F neighbourhood' % r, case)
+                break
             if Fpat and np.abs(RA[r, Fpat]).max() > 1e-8 * scale and np.linalg.cond(Ad[np.ix_(Fpat, Fpat)]) < 1e8:
                 ctx.fail('local_air/RA-not-zero', 'row %d: max |(RA)[i,j]| on the F pattern = %.3g' % (r, np.abs(RA[r, Fpat]).max()), case)
                 break
